@@ -414,6 +414,15 @@ impl IntrinsicOp {
                             .register_type(TypeLayer::Vector(bool_ty, x))
                             .to_rvalue()
                     }
+                    TypeLayer::Matrix(_, x, y) => {
+                        let bool_ty = module
+                            .type_registry
+                            .register_type(TypeLayer::Scalar(ScalarType::Bool));
+                        module
+                            .type_registry
+                            .register_type(TypeLayer::Matrix(bool_ty, x, y))
+                            .to_rvalue()
+                    }
                     _ => panic!("invalid logical not intrinsic"),
                 }
             }
